@@ -248,6 +248,12 @@ def main():
             yield (nodes, pt), "locate"
             yield (nodes, fa([[100.0], [100.0]])), "exact"          # far away: None
             yield (nodes, pt + fa([[0.0], [0.5]])), "locate"
+        # a point with TWO pre-images a controlled distance apart: the spread test (std-dev cap) decides between
+        # "ValueError: parameters not close enough" and a located value; both implementations must decide alike
+        for k in (6, 8, 10, 11, 12, 14, 16, 18, 22):
+            e = 2.0 ** -k
+            loop = fa([[3, -1, -1, 3], [-3 + 3 * e * e, 3 + e * e, -3 - e * e, 3 - 3 * e * e]])
+            yield (loop, fa([[3 * e * e], [0.0]])), "locate"
 
     @reg("_curve_helpers.reduce_pseudo_inverse", "mixed")
     def _():
@@ -412,6 +418,13 @@ def main():
         for d in degs(1, 4):
             nodes = valid_tri(d, 0.125)
             yield (nodes, d, 1.0 + rnd.uniform(0, 1), 1.0 + rnd.uniform(0, 1), 0.25, 0.25), "close-cond"
+        # one target coordinate reproduced exactly, the other off: x affine in s (exact lattice), dyadic s
+        for d in (1, 2, 3, 4):
+            nodes = valid_tri(d, 0.0)
+            nodes[1, :] += np.array([0.03125 * ((7 * i) % 5 - 2) for i in range(nodes.shape[1])])
+            for s0, t0 in ((0.25, 0.3), (0.5, 0.2), (0.125, 0.6)):
+                yield (np.asfortranarray(nodes), d, 4.0 * s0, 1.0, s0, t0), "close-cond"
+                yield (np.asfortranarray(nodes[::-1, :].copy()), d, 1.0, 4.0 * s0, t0, s0), "close-cond"
 
     @reg("_triangle_intersection.locate_point", "mixed")
     def _():
@@ -422,6 +435,12 @@ def main():
             p = TH.evaluate_barycentric(nodes, d, 1 - s - t, s, t)
             yield (nodes, d, float(p[0, 0]), float(p[1, 0])), "locate"
             yield (nodes, d, 50.0, 50.0), "exact"
+        for d in (1, 2, 3, 4):
+            nodes = valid_tri(d, 0.0)
+            nodes[1, :] += np.array([0.03125 * ((7 * i) % 5 - 2) for i in range(nodes.shape[1])])
+            for s0, t0 in ((0.25, 0.3), (0.5, 0.2), (0.125, 0.6)):
+                p = TH.evaluate_barycentric(np.asfortranarray(nodes), d, 1 - s0 - t0, s0, t0)
+                yield (np.asfortranarray(nodes), d, float(p[0, 0]), float(p[1, 0])), "locate"
 
     @reg("_triangle_intersection.geometric_intersect", "mixed")
     def _():
